@@ -179,9 +179,14 @@ theorem inv_groupFinish (ev : Evalr ρ) (st : St ρ) e r (h : st.scopes ≠ []) 
   dsimp only
   have hu := inv_updateElement ev st { e with contentBBox := r.2 } h
   have hsp := hu.trans (inv_setPrev _ { e with contentBBox := r.2 } hu.2.2.1)
+  have hst : Inv st (if r.2.isSome then setPrev (updateElement ev st { e with contentBBox := r.2 }) { e with contentBBox := r.2 }
+      else updateElement ev st { e with contentBBox := r.2 }) := by
+    split
+    · exact hsp
+    · exact hu
   split
-  · exact hsp
-  · split <;> exact hsp
+  · exact hst
+  · split <;> exact hst
 
 theorem inv_clipPost (ev : Evalr ρ) (e : Elem) (x : St ρ × Res) (h : x.1.scopes ≠ []) :
     Inv x.1 (clipPost ev e x).1 := by
